@@ -21,12 +21,9 @@ Definition file_wf (lo : Z) (s : snap) : bool :=
   end
   && in_i32 (s_tdlen s) && is_pow2 (s_tdlen s - RB_TRAILER_LENGTH) && (META + s_tdlen s <=? lo) && (META_FIELDS <=? lo).
 
-Fixpoint nondecreasing (prev : Z) (l : list Z) : bool :=
-  match l with [] => true | x :: r => (prev <=? x) && nondecreasing x r end.
-
 (* the arithmetic of the source is exact: no u64 overflow in start + timeout, no underflow in time - timeout *)
 Definition arith_wf (T c0 : Z) (clocks : list Z) : bool :=
-  (0 <=? T) && (T <=? c0) && (c0 + T <? two64) && forallb (fun c => (T <=? c) && (c <? two63)) clocks.
+  (0 <=? T) && (T <=? c0) && (c0 + T <? two64) && forallb (fun c => (T <=? c) && (c <? two64)) clocks.
 
 (* the shortest non-empty generation of the file in the script *)
 Definition min_size (sc : list (snap * Z)) : Z :=
@@ -34,17 +31,18 @@ Definition min_size (sc : list (snap * Z)) : Z :=
 
 Definition script_wf (T c0 : Z) (sc : list (snap * Z)) : bool :=
   let clocks := map snd sc in
-  arith_wf T c0 clocks && nondecreasing c0 clocks
-  && (c0 + T <? last clocks c0)                                            (* the clock passes the deadline *)
+  arith_wf T c0 clocks
+  && (c0 + T <? last clocks c0)                                            (* the clock ends past the deadline *)
   && forallb (fun p => file_wf (min_size sc) (fst p)) sc.
 
 Definition stale (h t T : Z) : bool := wrapu64 h <? t - T.
 
-(* index of the first clock call that answers a value past the deadline *)
-Fixpoint first_past (dl : Z) (clocks : list Z) (i : nat) : nat :=
+(* number of leading clock answers after which every answer is past the deadline; for a clock that does not run
+   backwards this is the index of the first answer past the deadline *)
+Fixpoint settle (dl : Z) (clocks : list Z) : nat :=
   match clocks with
-  | [] => i
-  | c :: r => if c >? dl then i else first_past dl r (S i)
+  | [] => 0
+  | c :: r => let n := settle dl r in if (n =? 0)%nat && (c >? dl) then 0%nat else S n
   end.
 
 Definition snap_alive (T : Z) (clocks : list Z) (s : snap) : bool :=
@@ -75,8 +73,8 @@ Definition holds_conn (T c0 : Z) (sc : list (snap * Z)) (o : ckind * Z) : bool :
   let t := clk c0 sc (K - 1) in
   let now_s := snp c0 sc K in            (* file state after the last clock call *)
   let prev_s := snp c0 sc (K - 1) in     (* file state before it *)
-  (* returns, and in bounded time: at the latest with the first clock answer past the deadline *)
-  (1 <=? kz) && (K <=? S (S (first_past dl clocks 0)))%nat &&
+  (* returns, and in bounded time: at the latest with the first clock answer from which the clock stays past the deadline *)
+  (1 <=? kz) && (K <=? S (S (settle dl clocks)))%nat &&
   (* the verdict is the prescribed one *)
   match kd with
   | KOk => (2 <=? kz) && negb (stale (s_hb now_s) t T) && negb (s_hb prev_s =? 0)
@@ -86,11 +84,11 @@ Definition holds_conn (T c0 : Z) (sc : list (snap * Z)) (o : ckind * Z) : bool :
   | KErr ENotCreated => (2 <=? kz) && (t >? dl) && match s_file prev_s with FSize n => n =? 0 | _ => false end
   | KErr ENotInitialised => (2 <=? kz) && (t >? dl) && (s_ver prev_s =? 0)
   | KErr EVersion => negb (s_ver now_s =? 0) && negb (version_ok (s_ver now_s))
-  | KErr EMapFile => match s_file now_s with FMissing => true | _ => false end
+  | KErr EMapFile => match s_file now_s with FMissing => true | FSize n => n =? 0 end   (* absent, or nothing to map *)
   | _ => false                           (* Panic, read outside the mapping, Hang *)
   end &&
   (* a driver that is alive all along is found at once; one that is dead all along is reported as such *)
-  (if forallb (fun p => snap_alive T (c0 :: clocks) (fst p)) sc && negb (length sc =? 0)%nat then kind_eqb kd KOk && (kz =? 2) else true) &&
+  (if forallb (fun p => snap_alive T (c0 :: clocks) (fst p)) sc && negb (length sc =? 0)%nat then kind_eqb kd KOk else true) &&
   (if forallb (fun p => snap_dead T (c0 :: clocks) (fst p)) sc && negb (length sc =? 0)%nat then kind_eqb kd (KErr ENoHeartbeat) else true).
 
 (* ------------------------------------------------------------------------------------------------------- *)
